@@ -81,6 +81,13 @@ T.update({
  'C18-c': ('C18', 'partial/idn/eav.c: GENERIC_RESTRICTED tested against the GENERIC bit (libidn back end only)', 'libidn build, allow_tld with exactly one of the two bits, TLD biz/name/pro'),
  'C19-c': ('C19', 'partial/idn2/is_utf8_domain.c: conversion failure detected by domain == NULL instead of the return code', 'an IDN failure that arrives together with an output buffer: treated as success'),
 })
+# round 6 (after C20 was claimed and the RFC6531_FOLLOW_RFC5322 job was built)
+T.update({
+ 'C20-a': ('C20', 'bin/main.c parse_file: terminator stripping rewritten as two independent steps (LF, then CR): a lone CR at the end of a line is stripped too', 'a line that ends in CR without LF (last line of a file without final newline): the library is asked about the line without its last byte'),
+ 'C20-b': ('C20', 'bin/main.h sanitize_utf8: buffer grown geometrically (doubled once) instead of to the needed size', 'a line whose printable copy needs more than twice the current buffer (first line of 256+ bytes): heap overflow'),
+ 'C20-c': ('C20', 'bin/main.c parse_file epilogue: free(sanitized) added without resetting the static pointer', 'two or more file arguments with address lines: use after free / double free in the second file'),
+ 'C17-d': ('C17', 'src/is_6531_local.c (#ifdef RFC6531_FOLLOW_RFC5322): look-ahead test ch > 0x7f became ch >= 0x7f', 'RFC6531_FOLLOW_RFC5322 build, quoted whitespace directly followed by DEL: accepted, mode 5322 rejects'),
+})
 for sid, (prop, change, needs) in T.items():
     d = os.path.join(S, sid)
     if not os.path.isdir(d):
@@ -100,10 +107,15 @@ for sid, (prop, change, needs) in T.items():
                 origin='written by an independent sub-agent that saw only the property text and its own worktree',
                 validated='tools/validate_seed.sh: applies, builds without warnings, `make check` exit 0 with the change, demo exits 0 on the unchanged tree and non-zero on the changed one',
                 check_runs=runs)
+    if sid in ('C20-a', 'C20-b', 'C20-c'):
+        meta['validated'] = 'confirmed in the sub-agent\'s worktree before it was removed: `make check` exit 0 (37 test programs PASS) with the change; demo.sh (builds bin/eav, runs it on the trigger input natively / under valgrind) shows the violation and a control input shows none'
+    if sid == 'C17-d':
+        meta['validated'] = 'confirmed in the sub-agent\'s worktree before it was removed: `make clean check` exit 0 in the default build and with RFC6531_FOLLOW_RFC5322=ON; demo.c compiled with -DRFC6531_FOLLOW_RFC5322 prints different verdicts of is_5322_local / is_6531_local for "abc \\x7f"'
     NOTES = {
         'C05-a': 'quick tier: UNDECIDED (exit 2) - the is_ipv6 job runs into the quick time budget / 30 GB on this change; the log kept here is the thorough-tier run (tools/run_seed.sh C05-a C05 --tier thorough --only is_ipv6), which refutes strspn.assertion.1 after 38 minutes',
         'C09-b': 'missed (check passed, exit 0) by the machinery as it was when the seed was written; the contract gap it exposed was closed (DESIGN.md 11.4) and the log kept here is the run after that',
         'C17-b': 'missed (check passed, exit 0) by the machinery as it was when the seed was written; the contract gap it exposed was closed (DESIGN.md 11.4) and the log kept here is the run after that',
+        'C20-a': 'missed (check passed) by the first version of job cli_parse_line: its strlen model returned the EXPECTED length instead of the position of a NUL in the buffer as the body left it, so a NUL written in the wrong place went unnoticed; the model now returns a prophesied index at which there is a NUL and the obligations say that this place is the terminator or a NUL of the line as read; the bounded jobs got an exact strlen.  The log kept here is the run after that',
         'C12-c': 'missed (check passed) by the machinery as it was when the seed was written: the conditions of the two dot codes overlapped for a leading double dot; the contracts now tell them apart by position and the log kept here is the run after that',
         'C15-c': 'missed by C15\'s quick tier as it was when the seed was written (no address-literal job in it; the C05/C16 checks did refute it); email_822_literal was added to C15\'s quick tier',
         'C01-c': 'verifier undecided (new loop without contract); reported as VIOLATION through the replay-oracle fallback once the oracle had a 6531 e-mail kind (concrete input u@d.xn--0, tld_check off)',
